@@ -246,8 +246,9 @@ CHECKS = {
                 "executing the real set_configs_directory and convert_db against a recording file layer; z3 searches all interleavings of "
                 "2-3 (quick) / 2-4 (thorough) simultaneously starting runs, with the initialisation branch modelled, for a load that observes "
                 "a truncated file; schedules found are replayed with real threads on a real scratch HOME by stepping the real functions in that "
-                "order. The violation found this way is a recorded known finding; with it listed, the check additionally replays the "
-                "non-overlapping schedule for real and requires every run to succeed.",
+                "order. When the query is unsat the model is validated by replaying the non-overlapping and the round-robin schedule with real threads and "
+                "files; a run that starts next to a half-initialised cache directory must succeed; the look-up decision (shared with C12) never "
+                "returns a conversion recorded for other modification times or flags. The in-place rewrite found this way on the pinned tree was repaired.",
         "note": "Trusted: z3, the recorded traces (one solo run per scenario), atomicity of single file operations. read_mapper's index/BED/"
                 "alignment caches use the same pattern but are not recorded; more than 4 processes and OS-level scheduling inside a write are outside.",
         "design": "3 C20",
